@@ -11,6 +11,7 @@ ResetTo(k) ==
   /\ holds' = [h \in Handles |-> 0] /\ copyh' = [h \in Handles |-> 0] /\ hascopy' = FALSE
   /\ extra' = [o \in Objs |-> 0] /\ defer' = [o \in Objs |-> 0] /\ made' = 0
   /\ cnt' = [o \in Objs |-> IF k = "bare" /\ o = 1 THEN 1 ELSE 0] /\ alive' = [o \in Objs |-> FALSE]
+  /\ snd' = [o \in Objs |-> TRUE] /\ tries' = [o \in Objs |-> 0]
   /\ obs' = [a |-> "init", arg |-> [kind |-> k, nh |-> NH, nobj |-> NObj, max |-> Max],
              exp |-> [ret |-> "ok", href |-> [h \in Handles |-> 0], copy |-> [h \in Handles |-> 0],
                       alive |-> [o \in Objs |-> 0], gone |-> <<>>, cnt |-> [o \in Objs |-> -1],
@@ -27,7 +28,8 @@ Step(ev) ==
     [] ev.a = "rawref"    -> RawRef(ev.arg.o)
     [] ev.a = "rawunref"  -> RawUnref(ev.arg.o)
     [] ev.a = "defer"     -> Defer(ev.arg.o)
-    [] ev.a = "undefer"   -> Undefer(ev.arg.o)
+    [] ev.a = "undefer"   -> Undefer(ev.arg.o, ev.arg.msg, ev.arg.accept)
+    [] ev.a = "reply"     -> ReplyCtx(ev.arg.o, ev.arg.msg, ev.arg.accept)
     [] ev.a = "poke"      -> Poke(ev.arg.o, ev.arg.v)
     [] ev.a = "arrcopy"   -> ArrCopy
     [] ev.a = "arrdrop"   -> ArrDrop
@@ -54,6 +56,7 @@ TraceInit ==
   /\ holds = [h \in Handles |-> 0] /\ copyh = [h \in Handles |-> 0] /\ hascopy = FALSE
   /\ extra = [o \in Objs |-> 0] /\ defer = [o \in Objs |-> 0] /\ made = 0
   /\ cnt = [o \in Objs |-> 0] /\ alive = [o \in Objs |-> FALSE]
+  /\ snd = [o \in Objs |-> TRUE] /\ tries = [o \in Objs |-> 0]
   /\ obs = [a |-> "none", arg |-> [x |-> 0],
             exp |-> [ret |-> "ok", href |-> [h \in Handles |-> 0], copy |-> [h \in Handles |-> 0],
                      alive |-> [o \in Objs |-> 0], gone |-> <<>>, cnt |-> [o \in Objs |-> -1],
